@@ -203,6 +203,10 @@ func (m *Machine) verifyOnce() {
 		}
 	}
 	fr.heap0 = cloneHeap(st.heap)
+	m.entryLocks = map[string]int{}
+	for k, v := range st.locks {
+		m.entryLocks[k] = v
+	}
 	// vacuity: the precondition must be satisfiable
 	m.obls = append(m.obls, &Obligation{Func: relName(fn), Name: relName(fn) + "#cover.requires", Kind: "cover", Cover: true,
 		PC: append([]*Term{}, st.pc...), Goal: m.ctx.T, ctx: m.ctx, Tags: m.allTags(), Desc: "requires + type invariants are satisfiable", Inputs: m.inputs})
@@ -310,6 +314,25 @@ func (m *Machine) topReturn(st *State, fr *Frame, rets []Value) {
 	m.coverPCs = append(m.coverPCs, append([]*Term{}, st.pc...))
 	if m.fc == nil {
 		return
+	}
+	// lock balance: the function returns holding exactly the mutexes it was entered with
+	if !st.pure {
+		var extra, missing []string
+		for k, v := range st.locks {
+			if v > 0 && m.entryLocks[k] < v {
+				extra = append(extra, k)
+			}
+		}
+		for k, v := range m.entryLocks {
+			if v > 0 && st.locks[k] < v {
+				missing = append(missing, k)
+			}
+		}
+		sort.Strings(extra)
+		sort.Strings(missing)
+		okk := len(extra) == 0 && len(missing) == 0
+		m.recordObl(st, fr, "guard", "lockbalance", m.ctx.Bool(okk), append([]string{"C10", "C11"}, m.safeTagsFor(fr.fn)...),
+			fmt.Sprintf("the function returns with the mutexes it was entered with (still held: %v, released but not acquired here: %v)", extra, missing), okk)
 	}
 	bind := m.currentBindings(st, fr)
 	m.resultBindings(fr.fn, fr.fn.Signature, rets, bind)
